@@ -189,16 +189,14 @@ func (c *Ctx) checkOrder(rule string, fn *ssa.Function, aDesc string, a map[ssa.
 // (modulo nil/empty guards on A's own operands) counts as A
 func (c *Ctx) checkOrderL(rule string, fn *ssa.Function, aDesc string, a map[ssa.Instruction]bool, bDesc string, b map[ssa.Instruction]bool) bool {
 	a2 := map[ssa.Instruction]bool{}
-	allowed := map[ssa.Value]bool{}
+	var calls []ssa.CallInstruction
 	for k := range a {
 		a2[k] = true
 		if ci, ok := k.(ssa.CallInstruction); ok {
-			for r := range rootsOfCall(ci) {
-				allowed[r] = true
-			}
+			calls = append(calls, ci)
 		}
 	}
-	addLoopEvents(c.P, fn, a2, edgeSet(emptinessGuardEdges(fn, allowed)))
+	addLoopEvents(c.P, fn, a2, edgeSet(emptinessGuardEdgesFor(fn, calls)))
 	return c.checkOrderG(rule, fn, aDesc, a2, bDesc, b, false)
 }
 
@@ -216,15 +214,13 @@ func (c *Ctx) checkOrderG(rule string, fn *ssa.Function, aDesc string, a map[ssa
 	}
 	var blocked func(*ssa.BasicBlock, int) bool
 	if guards {
-		allowed := map[ssa.Value]bool{}
+		var calls []ssa.CallInstruction
 		for in := range a {
 			if ci, ok := in.(ssa.CallInstruction); ok {
-				for r := range rootsOfCall(ci) {
-					allowed[r] = true
-				}
+				calls = append(calls, ci)
 			}
 		}
-		blocked = edgeSet(emptinessGuardEdges(fn, allowed))
+		blocked = edgeSet(emptinessGuardEdgesFor(fn, calls))
 	}
 	hit, trail := c.precedes(fn, a, b, blocked)
 	if hit != nil {
